@@ -4,7 +4,10 @@ import (
 	"context"
 	"fmt"
 	"log/slog"
+	"net/http"
+	"net/http/httptest"
 	"sort"
+	"strings"
 	"sync"
 	"testing"
 	"testing/synctest"
@@ -15,6 +18,7 @@ import (
 	"pgregory.net/rapid"
 
 	"github.com/prometheus/alertmanager/alert"
+	apiv2 "github.com/prometheus/alertmanager/api/v2"
 	"github.com/prometheus/alertmanager/config"
 	"github.com/prometheus/alertmanager/dispatch"
 	"github.com/prometheus/alertmanager/eventrecorder"
@@ -216,11 +220,20 @@ func TestC14Order(t *testing.T) {
 // Back-to-back pairs (fire then resolve, resolve then fire) of many alerts; once the
 // dispatcher has caught up, every group must hold the provider's version. A stale copy
 // is a permanent state, so waiting longer can never turn a pass into a failure.
-func TestC14Stress(t *testing.T) {
+func TestC14Stress(t *testing.T) { c14Stress(t, false) }
+
+// TestC14StressAPI: the same through POST /api/v2/alerts, where the receive time of a submission is assigned.
+func TestC14StressAPI(t *testing.T) { c14Stress(t, true) }
+
+func c14Stress(t *testing.T, viaAPI bool) {
 	if pbt.Replaying() {
 		t.Skip("statistical check: no replay")
 	}
-	m := pbt.NewManual("C14", "C14Stress", "black box, real scheduler: N alerts, each submitted twice back to back (fire->resolve or resolve->fire, distinct receive times) into a real provider + dispatcher; after the dispatcher caught up (polled up to 60 s) every aggregation group must hold the provider's version. Non-trivial: every pair.")
+	name, how := "C14Stress", "into a real provider"
+	if viaAPI {
+		name, how = "C14StressAPI", "as two separate POSTs to the real /api/v2/alerts handler (which assigns the receive time) of a real provider"
+	}
+	m := pbt.NewManual("C14", name, "black box, real scheduler: N alerts, each submitted twice back to back (fire->resolve or resolve->fire, distinct receive times) "+how+" + dispatcher; after the dispatcher caught up (polled up to 60 s) every aggregation group must hold the provider's version. Non-trivial: every pair.")
 	defer m.Flush()
 	n := 600
 	if pbt.Thorough() {
@@ -242,6 +255,18 @@ func TestC14Stress(t *testing.T) {
 	go disp.Run(time.Now())
 	disp.WaitForLoading()
 	defer disp.Stop()
+	var api *apiv2.API
+	if viaAPI {
+		conf, err := config.Load("route:\n  receiver: r\nreceivers:\n- name: r\n")
+		if err != nil {
+			t.Fatal(err)
+		}
+		api, err = apiv2.NewAPI(alerts, nil, nil, nil, nil, nopLog, prometheus.NewRegistry())
+		if err != nil {
+			t.Fatal(err)
+		}
+		api.Update(conf, func(context.Context, model.LabelSet) {})
+	}
 	for i := 0; i < n; i++ {
 		ls := model.LabelSet{"a": model.LabelValue(fmt.Sprintf("v%d", i%50)), "i": model.LabelValue(fmt.Sprint(i))}
 		ends := []time.Duration{time.Hour, -time.Second}
@@ -250,6 +275,18 @@ func TestC14Stress(t *testing.T) {
 		}
 		for v, e := range ends {
 			now := time.Now()
+			if viaAPI {
+				body := fmt.Sprintf(`[{"labels":{"a":%q,"i":%q},"annotations":{"v":"%d"},"startsAt":%q,"endsAt":%q}]`, string(ls["a"]), string(ls["i"]), v,
+					now.Add(-time.Minute).UTC().Format(time.RFC3339Nano), now.Add(e).UTC().Format(time.RFC3339Nano))
+				req := httptest.NewRequest(http.MethodPost, "/api/v2/alerts", strings.NewReader(body))
+				req.Header.Set("Content-Type", "application/json")
+				rec := httptest.NewRecorder()
+				api.Handler.ServeHTTP(rec, req)
+				if rec.Code != http.StatusOK {
+					t.Fatalf("POST /alerts: %d %s", rec.Code, rec.Body.String())
+				}
+				continue
+			}
 			a := &alert.Alert{Alert: model.Alert{Labels: ls, StartsAt: now.Add(-time.Minute), EndsAt: now.Add(e), Annotations: model.LabelSet{"v": model.LabelValue(fmt.Sprint(v))}}, UpdatedAt: now}
 			if err := alerts.Put(ctx, a); err != nil {
 				t.Fatal(err)
